@@ -133,9 +133,12 @@ func clientCase(r *rig.Rig, router int, client, script string, interval time.Dur
 	}
 	defer func() { r.Core.Fault = nil }()
 
-	pctx, cancel := context.Background(), func() {}
+	// no script lets the device poll for ever: a provider that never lets the code expire (or never answers
+	// anything final) would otherwise keep the library's polling loop spinning on the fake clock without end
+	pctx, cancel := context.WithTimeout(context.Background(), lifetime+time.Minute)
 	if giveUp >= 0 {
-		pctx, cancel = context.WithTimeout(pctx, giveUp)
+		cancel()
+		pctx, cancel = context.WithTimeout(context.Background(), giveUp)
 	}
 	defer cancel()
 	start := time.Now()
